@@ -10,6 +10,10 @@ FER = "diagnostic::Diagnostic::from_error_recovery"
 MAXLEN = 24
 
 
+def maxlen(ctx):
+    return 64 if ctx.tier == "thorough" else MAXLEN
+
+
 def leaves(l, out):
     if isinstance(l, tuple):
         for x in l:
@@ -43,7 +47,8 @@ def run(ctx, rep):
     rep.rule("F4", "every error path (Err branch of add_content, recovery actions) goes through from_parse_error")
     fn = facts.fn(ETS)
     arms = {}
-    for n in range(0, MAXLEN + 1):
+    MAXL = maxlen(ctx)
+    for n in range(0, MAXL + 1):
         v = VecVal([Cell(Opaque("v[%d]" % i)) for i in range(n)])
         paths = Machine(facts).run(ETS, [Ref(Cell(v))])
         if len(paths) != 1 or paths[0].exit != "return":
@@ -70,7 +75,7 @@ def run(ctx, rep):
                   "expected_token_str with %d expected token(s): the sentence must name each of them once, in order; sentence = %s; missing %r, duplicated %r" % (n, fmt_label(lab(p.ret))[:220], missing, dup),
                   witness={"expected": ["T%d" % i for i in range(n)], "sentence_built_from": used},
                   sample={"n": n, "sentence": fmt_label(lab(p.ret))[:200]})
-    rep.floor("A13", "vector lengths examined", sum(len(v) for v in arms.values()), MAXLEN + 1)
+    rep.floor("A13", "vector lengths examined", sum(len(v) for v in arms.values()), MAXL + 1)
     # ---- F2
     ff = facts.fn(FPE)
     m = Machine(facts, opaque_fns=[ETS, "ast::Range::new"], pure_fns=[ETS, "ast::Range::new"])
